@@ -186,7 +186,27 @@ def rule_t1_u2(ck, prog):
             continue
         xname = divs[0]
         table, norm = {}, {}
+        # (divisor, radix in use) at the first division of the value, for each requested radix: the function is evaluated with
+        # the radix as the only known argument (value, buffer, length and sign flag unknown, decisions on them followed both
+        # ways) up to the first division whose dividend is unknown - a switch, an if-chain and a table lookup all end there
+        # with the same pair
+        from sa import interp as I
+        evaluated = True
         for radix in (2, 8, 10, 16, 7):
+            def obs(kind, node, ops, fr, _b=base):
+                if kind == "arith" and node.get("op") in ("/", "/=", "%", "%=") and ops[0] is I.TOP and ops[1] is not I.TOP:
+                    raise I.StopPath((ops[1], fr.vars[_b][0]))
+            try:
+                outs, _m = I.explore(prog, f.name, [I.TOP, I.TOP, I.TOP, radix, I.TOP], observer=obs)
+            except I.Stuck:
+                evaluated = False
+                break
+            hits = [o[0][1] for o in outs if isinstance(o[0], tuple) and o[0] and o[0][0] == "stopped"]
+            table[radix] = {h[0] for h in hits}
+            norm[radix] = {h[1] for h in hits}
+        if not evaluated:
+            table, norm = {}, {}
+        for radix in (() if evaluated else (2, 8, 10, 16, 7)):
             firsts, bases = set(), set()
             for ps in P.summarize(f, max_visits=1, params={base: radix}):
                 fx, lastb = None, None
